@@ -10,8 +10,15 @@ chunk is not in the pool).
 Both invariants hold in every reachable state, for all 16 operations (no guard).  `FreshL n l` = every pointer of
 `l` is null or the base address of a chunk id `≥ n`, i.e. of a chunk that did not exist in a pool of length `n`.
 
-What is *not* proved here and only observed by the correspondence run: heap behaviour of `malloc/free` and of kernels
-(ASan/UBSan stream); chunk identity is up to renaming (malloc addresses are not modelled). -/
+What is *not* proved here (observed by the correspondence run only, or outside the model):
+* heap behaviour of `malloc/free` and of numerical kernels (runtime clause: ASan/UBSan streams); chunk identity is up
+  to renaming (malloc addresses are not modelled);
+* a range view used after the last owner of the viewed array died (excluded by the generator's guard; the theorems
+  about views assume the owner survives);
+* PowerVector, TupleMatrix, tuples of other component kinds and cross-type tuple convert are not in the op alphabet
+  (TupleVector<DenseVector, DenseVector> is, as the `run` of its component operations);
+* SparseVector element insertion with reallocation (`operator()(i, v)` growth path) is not modelled;
+* `read_from` / deserialisation as content-replacing operations are not in the alphabet. -/
 open FeatModel.Pool
 
 /-- the empty runtime state satisfies the invariant -/
@@ -223,6 +230,15 @@ theorem C20.lifetime_ops_never_change_bystanders (s s' : State) (op : Op) (hi : 
     (hf : cc.foreign = false) : s'.slot c = some cc ∧ cc.obs s'.pool = cc.obs s.pool :=
   bystander_contents hi h hw hc hsc hf
 
+/-- the same for a RANGE VIEW (or any container) as bystander: as long as every chunk it points into has an owner
+    before and after the operation - the view's owner survives - it reads exactly the same values afterwards -/
+theorem C20.lifetime_ops_never_change_views_whose_owner_survives (s s' : State) (op : Op) (hi : Inv s)
+    (h : step s op = .ok s') (hw : op.writes = false) (c : Nat) (cc : Cont) (hc : c ∉ op.targets)
+    (hsc : s.slot c = some cc)
+    (hlive : ∀ id off, Ptr.at id off ∈ cc.ptrs → id ∈ s.ownIds ∧ id ∈ s'.ownIds) :
+    s'.slot c = some cc ∧ cc.obs s'.pool = cc.obs s.pool :=
+  bystander_contents_view hi h hw hc hsc hlive
+
 /-- `a.copy(b, full)` legitimately writes in place: the target keeps exactly its arrays and view flag, no counter
     changes, and the new values are invisible to every container that is not a sharing relative of the target -/
 theorem C20.copy_writes_in_place (s s' : State) (a b full : Nat) (ca : Cont) (h : step s (.copy a b full) = .ok s')
@@ -250,6 +266,12 @@ theorem C20.layout_move_transfers_ownership (s s' : State) (d src : Nat) (Ls : L
     s'.lay d = some Ls ∧ s'.lay src = some Ls.movedFrom ∧
     releaseAll s.pool (layoutInds (s.lay d)) = .ok s'.pool ∧ (s.lay d = none → s'.pool = s.pool) :=
   step_lmove_table h hLs hne
+
+/-- the invariants do not depend on the number of slots: they hold in every state reachable from the empty runtime
+    with ANY number of container and layout slots (the boundary-size stream runs with 300 container slots) -/
+theorem C20.inv_reachable_any_slot_count (n m : Nat) (ops : List Op) (s : State)
+    (h : run (State.initN n m) ops = .ok s) : Inv s ∧ Aligned s :=
+  ⟨FeatModel.Pool.inv_run (inv_initN n m) h, aligned_run (aligned_initN n m) h⟩
 
 /-- the history that leaked two chunks before /repo commit eef945341 (one layout object assigned twice, everything
     destroyed; former finding F-C20-1) now ends with an empty pool and a clean `finalize` -/
